@@ -1,0 +1,12 @@
+//go:build !verif
+// +build !verif
+
+// Package verifhook provides named points the verification harness can attach callbacks to.
+// Without the build tag `verif` every function is empty and is inlined away.
+package verifhook
+
+// At marks a named point in the code. No-op without the `verif` build tag.
+func At(point string) {}
+
+// Enabled tells whether the hooks are compiled in.
+const Enabled = false
